@@ -79,9 +79,10 @@ theorem withName_self (v : IRValue) (n : String) (h : v.name = n) : { v with nam
 
 theorem newInitValue_eq (vis : List ValueInfoP) (q : List AnnotP) (hvis : vis.all wfVI = true)
     (p : TensorP) (hw : wfTensor p = true) (hv : validDType p.dataType = true) :
-    newInitValue vis q (irT p) = .ok (initValT vis q p) := by
+    newInitValue vis q (irT p) p.dataType = .ok (initValT vis q p) := by
   have hname : (irT p).name = p.name := (irT_spec p hw).2.2.1
-  simp only [newInitValue, (irT_dtype p hw hv).1, hname, initValT, bind, Except.bind]
+  have _ := hv
+  simp only [newInitValue, hname, initValT, bind, Except.bind]
   cases hf : findVI vis p.name with
   | none =>
     simp only [Except.ok.injEq]
@@ -171,7 +172,8 @@ theorem desInitializers_spec (vis : List ValueInfoP) (q : List AnnotP) (hvis : v
       have hnew : newInits (tableNames tbl) (p :: ps) = newInits (tableNames tbl) ps := by
         simp [newInits, List.filter_cons, hmem]
       refine ⟨i :: idxs, ?_, ?_⟩
-      · simp only [List.map_cons, desInitializers, hname, hpn, if_false, hl]
+      · simp only [List.map_cons, desInitializers, hname, hpn, if_false, hl,
+          (irT_dtype p hw hv).1, bind, Except.bind]
         have := h1
         rw [hnames1, htbl_eq] at this
         simp only [setConst] at hupd
@@ -236,7 +238,7 @@ theorem desInitializers_spec (vis : List ValueInfoP) (q : List AnnotP) (hvis : v
         exact List.map_congr_left hcf1
       rw [hfinal] at h1 h2
       refine ⟨tbl.length :: idxs, ?_, ?_⟩
-      · simp only [List.map_cons, desInitializers, hname, hpn, if_false, hl,
+      · simp only [List.map_cons, desInitializers, hname, hpn, if_false, hl, hdt.1,
           newInitValue_eq vis q hvis p hw hv, h1, bind, Except.bind]
       · simp only [List.map_cons, h2, List.cons.injEq, and_true]
         symm
